@@ -72,6 +72,10 @@ def opt_cfg(rng, widths):
     if c == 0:
         return {"kind": "QR"}
     if c == 1:
+        if rng.random() < 0.5:
+            # GQR with constraint keywords handed to fit (the sensor budget is NOT among them): the ranking is a function of the basis
+            # matrix and these keywords only - not of how many sensors the model was told to use
+            return {"kind": "GQR", "fit_kws": {"idx_constrained": [0, 1], "n_const_sensors": 1, "constraint_option": "exact_n"}}
         return {"kind": "GQR"}
     if c == 2:
         return {"kind": "CCQR", "sensor_costs": None}
@@ -162,11 +166,17 @@ def new_model(case, n_value):
     return SSPOR(basis=basis, optimizer=opt, n_sensors=n_value)
 
 
+def fit_kws(case):
+    """keyword arguments every fit of this case hands to the optimizer (GQR constraint settings)"""
+    return {k_: (np.array(v_, dtype=int) if k_ == "idx_constrained" else v_) for k_, v_ in case["opt"].get("fit_kws", {}).items()}
+
+
 def apply_op(model, case, op):
     ds = case["datasets"]
     k = op[0]
     if k == "fit":
-        impl.quiet(model.fit, np.array(ds[op[1]]), seed=op[2], quiet=True)
+        kws = {k_: (np.array(v_, dtype=int) if k_ == "idx_constrained" else v_) for k_, v_ in case["opt"].get("fit_kws", {}).items()}
+        impl.quiet(model.fit, np.array(ds[op[1]]), seed=op[2], quiet=True, **kws)
     elif k == "setn":
         (model.set_number_of_sensors if len(op) < 3 or not op[2] else model.set_n_sensors)(pyvalue(op[1]))
     elif k == "upd":
@@ -175,6 +185,22 @@ def apply_op(model, case, op):
     elif k == "obs":
         _ = model.selected_sensors
         _ = model.all_sensors
+        # pure observations include an error curve whose user-supplied score function fails part-way (caught by the caller):
+        # observing - successfully or not - changes nothing
+        if hasattr(model, "ranked_sensors_"):
+            w = len(model.ranked_sensors_)
+            calls = [0]
+
+            def failing_score(a, b):
+                calls[0] += 1
+                if calls[0] >= 2:
+                    raise RuntimeError("user score function failed")
+                return 0.0
+            try:
+                kk = max(1, min(w, int(model.basis_matrix_.shape[1]) - 1))
+                impl.quiet(model.reconstruction_error, np.ones((2, w)), sensor_range=np.array([1, kk, 1]), score=failing_score)
+            except Exception:
+                pass
     else:
         raise ValueError(op)
 
@@ -229,7 +255,10 @@ def eval_rtok(case, code):
         ocfg = case["opt"]
     else:
         ocfg = {"kind": "GQR"}
-    r = np.array(impl.quiet(impl.make_optimizer(ocfg).fit, M.copy()).get_sensors())
+    kws = {}
+    if ocfg["kind"] == "GQR":
+        kws = {k_: (np.array(v_, dtype=int) if k_ == "idx_constrained" else v_) for k_, v_ in case["opt"].get("fit_kws", {}).items()}
+    r = np.array(impl.quiet(impl.make_optimizer(ocfg).fit, M.copy(), **kws).get_sensors())
     m = M.shape[1]
     seed = None if seedc == 0 else seedc - 1
     if seed is not None:
